@@ -147,7 +147,18 @@ func (x *Exec) oblige(st *State, kind, label, what string, goal string, pos toke
 	}
 	x.oblCount[base]++
 	name := fmt.Sprintf("%s#%d", base, x.oblCount[base])
-	x.obls = append(x.obls, &Obligation{Name: name, Kind: kind, Label: label, Func: fnKey(x.root), Pos: x.sc.pos(), Goal: implies(st.pc, goal), Src: x.srcPos(pos)})
+	// one query per conjunct (conjoined goals time out where the parts take milliseconds)
+	parts := []string{goal}
+	if kind == "post" || kind == "inv-init" || kind == "inv-step" || kind == "pre" {
+		parts = x.sc.splitGoal(goal)
+	}
+	for i, g := range parts {
+		n := name
+		if len(parts) > 1 {
+			n = fmt.Sprintf("%s.%d", name, i+1)
+		}
+		x.obls = append(x.obls, &Obligation{Name: n, Kind: kind, Label: label, Func: fnKey(x.root), Pos: x.sc.pos(), Goal: implies(st.pc, g), Src: x.srcPos(pos)})
+	}
 }
 
 func shortKey(P *Program, k string) string {
